@@ -313,6 +313,9 @@ func checkLoadOrderAfterTimeouts(res *vlib.Result, r *vlib.Rand, ctxID int) {
 	type pp struct {
 		spec  pollSpec
 		group byte
+		// written by the poll's goroutine under mu
+		ret   time.Time // when the poll returned (zero: still open)
+		offer string    // the offer it returned with ("" = no match)
 	}
 	var ps []*pp
 	order := r.Perm(nA + nB)
@@ -335,6 +338,9 @@ func checkLoadOrderAfterTimeouts(res *vlib.Result, r *vlib.Rand, ctxID int) {
 		go func() {
 			defer wg.Done()
 			pr := b.poll(&p.spec)
+			mu.Lock()
+			p.ret, p.offer = time.Now(), pr.Offer
+			mu.Unlock()
 			if pr.Offer != "" {
 				mu.Lock()
 				taken = append(taken, p.spec.Clients)
@@ -390,13 +396,19 @@ func checkLoadOrderAfterTimeouts(res *vlib.Result, r *vlib.Rand, ctxID int) {
 	// clients arrive one after another (each waits for its answer), as many as
 	// proxies remain: every single one must be given the least loaded proxy
 	// still waiting, so a disordered heap cannot hide behind a multiset
+	// A take is wrong iff a less loaded proxy was CERTAINLY waiting throughout the
+	// client's request: its poll was still open when the client's response had
+	// returned (a poll that had returned "no match" by then may have left through
+	// its own timeout - on a loaded machine the sequence of clients can outlast the
+	// 3 s until the first of the remaining polls expires).
 	k := nB
 	var seq []int
-	firstBad := -1
+	firstBad, badLower := -1, 0
 	for j := 0; j < k; j++ {
+		offer := fmt.Sprintf("LT-OFFER-%d-%d", ctxID, j)
 		done := make(chan clientResult, 1)
 		go func(j int) {
-			done <- b.client(&clientSpec{Transport: "post", NAT: NATRestricted, Offer: fmt.Sprintf("LT-OFFER-%d-%d", ctxID, j)})
+			done <- b.client(&clientSpec{Transport: "post", NAT: NATRestricted, Offer: offer})
 		}(j)
 		select {
 		case <-done:
@@ -404,17 +416,29 @@ func checkLoadOrderAfterTimeouts(res *vlib.Result, r *vlib.Rand, ctxID int) {
 			res.Inconcl(name + ": a client did not return")
 			return
 		}
+		clientRet := time.Now()
+		// the poll that received this offer has returned before the client did (it
+		// posted the answer the client got); find it
 		mu.Lock()
-		if len(taken) != j+1 {
+		var got *pp
+		for _, p := range ps {
+			if p.offer == offer {
+				got = p
+			}
+		}
+		if got == nil {
 			mu.Unlock()
-			// the remaining proxies may have started to time out: stop judging here
+			// denied or timed out: the remaining proxies have started to leave; stop judging here
 			break
 		}
-		seq = append(seq, taken[j])
-		mu.Unlock()
-		if firstBad < 0 && seq[j] != remaining[j] {
-			firstBad = j
+		seq = append(seq, got.spec.Clients)
+		for _, q := range ps[nA:] {
+			stillOpen := q.ret.IsZero() || q.ret.After(clientRet)
+			if q != got && stillOpen && q.offer == "" && q.spec.Clients < got.spec.Clients && firstBad < 0 {
+				firstBad, badLower = j, q.spec.Clients
+			}
 		}
+		mu.Unlock()
 	}
 	got := seq
 	var leftLoads []int
@@ -428,7 +452,7 @@ func checkLoadOrderAfterTimeouts(res *vlib.Result, r *vlib.Rand, ctxID int) {
 	res.Obs("sequential_takes_checked", int64(len(got)))
 	if firstBad >= 0 {
 		rec["first_wrong_take"] = firstBad
-		res.Violate("c03:load-order:after-timeout-removal", fmt.Sprintf("%s: after %d proxies left through the poll timeout, client %d was given a proxy with load %d while one with load %d was waiting (takes so far %v, waiting loads in order %v)", name, nA, firstBad, got[firstBad], remaining[firstBad], got, remaining), rec)
+		res.Violate("c03:load-order:after-timeout-removal", fmt.Sprintf("%s: after %d proxies left through the poll timeout, client %d was given a proxy with load %d while one with load %d was waiting - its poll was still open after the client had been answered (takes so far %v, loads of the proxies that remained after the timeouts %v)", name, nA, firstBad, got[firstBad], badLower, got, remaining), rec)
 	}
 	res.Sample(2, rec)
 	wb := make(chan struct{})
